@@ -355,7 +355,11 @@ func TestVerifC44(t *testing.T) {
 					}
 				}
 				rec.take()
+				st := th.GetState()
 				p, _ := vk.Catch(run)
+				if p != nil {
+					th.RestoreState(st) // what the top level of the interpreter does with an exception that reaches it
+				}
 				got := rec.take()
 				key := fmt.Sprintf("hist %d tx %d op %d: %s", h, tx, i, vk.Trunc(opDesc, 150))
 				threw := p != nil && strings.Contains(fmt.Sprint(p), "trigger BOOM")
